@@ -62,6 +62,12 @@ EDGE = {
     # the same adjacencies written in complement form
     "e3c": T(["E", "e3c", "a-", "c+", "0", "2", "0", "2", "*"]),
     "e2pc": T(["E", "e2pc", "c+", "b-", "8", "10$", "8", "10$", "*"]),
+    # the adjacency b+ c- as a containment / as an internal alignment (an edge
+    # of any kind joins two items), and an edge of a segment with itself
+    "e2k": T(["E", "e2", "b+", "c-", "0", "10$", "2", "8", "*"]),
+    "e2i": T(["E", "e2", "b+", "c-", "3", "5", "4", "6", "*"]),
+    "es": T(["E", "es", "a+", "a+", "8", "10$", "0", "2", "*"]),
+    "e2ki": T(["E", "e2ki", "b+", "c-", "3", "5", "4", "6", "*"]),
 }
 GRAPHS = {
     "base": ["e1", "e2"],
@@ -70,6 +76,10 @@ GRAPHS = {
     "parcyc": ["e1", "e2", "e2p", "e3"],
     "cycC": ["e1", "e2", "e3c"],
     "parC": ["e1", "e2", "e2pc"],
+    "cont": ["e1", "e2k"],
+    "int": ["e1", "e2i"],
+    "self": ["e1", "e2", "es"],
+    "dovint": ["e1", "e2", "e2ki"],     # a dovetail and an internal: ambiguous
 }
 GAP = T(["G", "g1", "a+", "c+", "5", "*"])
 BASE_ATOMS = [s + o for s in ("a", "b", "c", "e1", "e2") for o in "+-"]
